@@ -98,7 +98,7 @@ def check(facts, rep, tier, cfg):
         else:
             rep.ok("C08.R1", "order/%s" % label, where, "%d path classes, milestones in order" % len(effs))
         # forbid-writes loop present (may be skipped only when the table is empty: flag:set appears on some path)
-        if not any(idx(ef, "flag:set", True) is not None and idx(ef, "wake", True) is not None and idx(ef, "flag:set", True) < idx(ef, "outq:close") for ef in effs):
+        if not any(idx(ef, "flag:set", True) is not None and idx(ef, "wake", True) is not None and lt(idx(ef, "flag:set", True), idx(ef, "outq:close")) for ef in effs):
             rep.bad("C08.R1", "forbid-writes/%s" % label, where, "no path sets the closed flag and wakes writers before closing the queue")
         # drain resolves pending requests
         if not any(idx(ef, "oneshot:None") is not None for ef in effs) or not any(idx(ef, "oneshot:false") is not None for ef in effs) \
@@ -112,7 +112,7 @@ def check(facts, rep, tier, cfg):
     ok2 = bool(flush1)
     for ef in flush1:
         a, b_, c_ = idx(ef, "outq:recv"), idx(ef, "ws:start_send"), idx(ef, "ws:poll_close")
-        if a is None or not (idx(ef, "outq:close") < a < c_ and b_ < c_):
+        if a is None or not (lt(idx(ef, "outq:close"), a) and lt(a, c_) and lt(b_, c_)):
             ok2 = False
     if ok2:
         rep.ok("C08.R2", "flush-on-local-drop", where, "close queue < recv/start_send loop < poll_close when the flag is true")
@@ -270,6 +270,11 @@ def check(facts, rep, tier, cfg):
         else:
             rep.bad("C08.R5", "%s/closed-mapping" % root.path, w5, "a closed queue / dropped oneshot in this public method is not reported as Error::Closed")
     rep.floor("C08.R5", "fallible queue operations in public methods", n, 5)
+
+
+def lt(a, b):
+    """None-safe `a < b` over milestone positions (a missing milestone never satisfies an ordering)."""
+    return a is not None and b is not None and a < b
 
 
 def closed_mapping_sites(facts, crate):
